@@ -178,6 +178,8 @@ def gen_cases(tier, seed):
         keys.append(dict(part="sequence", first=first))
     for sysname in SEQ_SYSTEMS:
         keys.append(dict(part="opsedit", system=sysname))
+    for sysname in ("triclinic", "orthorhombic"):
+        keys.append(dict(part="batched_int", system=sysname))
     # default worker count: every answer of the environment for the CPU affinity
     for cpus in (1, 2, 3, 5, 16, 64):
         keys.append(dict(part="default_workers", cpus=cpus, N=3))
@@ -335,6 +337,46 @@ def run_large(key):
     return res
 
 
+def run_batched_int(key):
+    """A stack of axis-aligned textures typed with integer literals (an int64 array): the batched
+    variant returns exactly the per-snapshot values (seed C14i: result buffer inheriting the
+    dtype of the stack)."""
+    res = empty_result()
+    g, d, s = mods()
+    system = getattr(g.LatticeSystem, key["system"])
+    cube = np.array(list(alph.CUBE.values()))
+    stack = np.array([np.rint(cube[(np.arange(8) * (3 + 2 * j) + j) % 24]) for j in range(4)]).astype(np.int64)
+    direct = np.array([float(d.misorientation_index(stack[i].astype(float), system)) for i in range(len(stack))])
+    res["n"] = len(stack)
+    for W in (1, 2, 3):
+        for via in ("pool", "ncpus"):
+            res["n"] += 1
+            res["trans"] += 1
+            res["clauses"]["batched_order"] = res["clauses"].get("batched_order", 0) + 1
+            memo = {}
+            try:
+                if via == "pool":
+                    out = d.misorientation_indices(stack, system, pool=VirtualPool(W, [], memo))
+                else:
+                    old = d.Pool
+                    d.Pool = lambda processes=None, *a, **k: VirtualPool(processes, [], memo)
+                    try:
+                        out = d.misorientation_indices(stack, system, ncpus=W)
+                    finally:
+                        d.Pool = old
+                out = np.asarray(out, float)
+                if out.shape != direct.shape or not np.array_equal(out, direct, equal_nan=True):
+                    V(res, key, "batched_order", {"got": out, "expected": direct}, W=W, via=via, form="integer_typed_stack")
+            except Exception as e:
+                V(res, key, "batched_order", {"exception": type(e).__name__, "msg": str(e)[:200]}, W=W, via=via, form="integer_typed_stack_raises")
+    res["states"] = 6
+    res["nontrivial"].append(digest(key))
+    res["outcomes"].append(digest(direct))
+    res["obs"] = digest(direct)
+    res["sample"] = {"case": key, "per_snapshot": direct.tolist()}
+    return res
+
+
 def run_opsedit(key):
     """The caller fetches the symmetry operators through the public function, edits the list
     and its arrays in place (they were handed over as the caller's own), and computes the
@@ -376,6 +418,8 @@ def run_opsedit(key):
 def run_case(key):
     if key["part"] == "opsedit":
         return run_opsedit(key)
+    if key["part"] == "batched_int":
+        return run_batched_int(key)
     if key["part"] == "sequence":
         return run_sequence(key)
     if key["part"] == "large":
